@@ -69,7 +69,7 @@ MarshalRes(ev) == [ok |-> ev.ok, out |-> ev.out, panic |-> ev.panic]
 TrMarshal ==
   /\ e.op = "marshal"
   /\ LET res == MarshalRes(e)
-         G(D) == MarshalGuard(D, e.h, res)
+         G(D) == IF pk[e.h].k = "NONE" THEN {"TRACE:call_on_missing_packet"} ELSE MarshalGuard(D, e.h, res)
      IN  /\ buf'  = [buf EXCEPT ![e.h] = IF res.ok THEN res.out ELSE << >>]
          /\ prov' = [prov EXCEPT ![e.h] = IF res.ok THEN pk[e.h] ELSE None]
          /\ memo' = [memo EXCEPT ![e.h].marshal = res, ![e.h].hasstr = IF ContainsXR(pk[e.h]) THEN FALSE ELSE @]
@@ -79,39 +79,39 @@ TrMarshal ==
          /\ Step(Verdict(G, Modified(e)), {IF res.ok THEN "marshal_ok" ELSE "marshal_err"}, pk[e.h].k)
 TrSize ==
   /\ e.op = "size"
-  /\ LET G(D) == SizeGuard(D, e.h, e.out) IN
+  /\ LET G(D) == IF pk[e.h].k = "NONE" THEN {"TRACE:call_on_missing_packet"} ELSE SizeGuard(D, e.h, e.out) IN
      /\ memo' = [memo EXCEPT ![e.h].size = e.out] /\ UNCHANGED << buf, prov, fromdec, provdec >>
      /\ pk' = IF e.post.k = "SAME" THEN pk ELSE [pk EXCEPT ![e.h] = e.post]
      /\ Step(Verdict(G, Modified(e)), {"size"}, pk[e.h].k)
 TrDest ==
   /\ e.op = "dest"
-  /\ LET G(D) == DestGuard(D, e.h, e.out) IN
+  /\ LET G(D) == IF pk[e.h].k = "NONE" THEN {"TRACE:call_on_missing_packet"} ELSE DestGuard(D, e.h, e.out) IN
      /\ memo' = [memo EXCEPT ![e.h].dest = e.out, ![e.h].hasdest = TRUE] /\ UNCHANGED << buf, prov, fromdec, provdec >>
      /\ pk' = IF e.post.k = "SAME" THEN pk ELSE [pk EXCEPT ![e.h] = e.post]
      /\ Step(Verdict(G, Modified(e)), {"dest"}, pk[e.h].k)
 TrHeader ==
   /\ e.op = "header"
-  /\ LET G(D) == HeaderGuard(D, e.h, e.out) IN
+  /\ LET G(D) == IF pk[e.h].k = "NONE" THEN {"TRACE:call_on_missing_packet"} ELSE HeaderGuard(D, e.h, e.out) IN
      /\ UNCHANGED << buf, prov, memo, fromdec, provdec >>
      /\ pk' = IF e.post.k = "SAME" THEN pk ELSE [pk EXCEPT ![e.h] = e.post]
      /\ Step(Verdict(G, Modified(e)), {"header"}, pk[e.h].k)
 TrString ==
   /\ e.op = "string"
   /\ LET res == [panic |-> e.panic, out |-> e.out]
-         G(D) == StringGuard(e.h, res) IN
+         G(D) == IF pk[e.h].k = "NONE" THEN {"TRACE:call_on_missing_packet"} ELSE StringGuard(e.h, res) IN
      /\ memo' = [memo EXCEPT ![e.h].str = e.out, ![e.h].hasstr = TRUE] /\ UNCHANGED << buf, prov, fromdec, provdec >>
      /\ pk' = IF e.post.k = "SAME" THEN pk ELSE [pk EXCEPT ![e.h] = e.post]
      /\ Step(Verdict(G, Modified(e)), {"string"}, pk[e.h].k)
 
 TrValidate ==
   /\ e.op = "validate"
-  /\ LET G(D) == ValidateTags(pk[e.h], [ok |-> e.ok, panic |-> e.panic]) IN
+  /\ LET G(D) == IF pk[e.h].k = "NONE" THEN {"TRACE:call_on_missing_packet"} ELSE ValidateTags(pk[e.h], [ok |-> e.ok, panic |-> e.panic]) IN
      /\ UNCHANGED << buf, prov, memo, fromdec, provdec >>
      /\ pk' = IF e.post.k = "SAME" THEN pk ELSE [pk EXCEPT ![e.h] = e.post]
      /\ Step(Verdict(G, Modified(e)), {"validate", "wf_values"}, pk[e.h].k)
 TrCname ==
   /\ e.op = "cname"
-  /\ LET G(D) == CnameTags(pk[e.h], [ok |-> e.ok, panic |-> e.panic, out |-> e.out]) IN
+  /\ LET G(D) == IF pk[e.h].k = "NONE" THEN {"TRACE:call_on_missing_packet"} ELSE CnameTags(pk[e.h], [ok |-> e.ok, panic |-> e.panic, out |-> e.out]) IN
      /\ UNCHANGED << buf, prov, memo, fromdec, provdec >>
      /\ pk' = IF e.post.k = "SAME" THEN pk ELSE [pk EXCEPT ![e.h] = e.post]
      /\ Step(Verdict(G, Modified(e)), {"cname"}, pk[e.h].k)
